@@ -61,6 +61,30 @@ PROPS["C06"] = {
     "assumptions": [],
 }
 
+PROPS["C07"] = {
+    "claim": "every traversal API equals the list computed from parent()/children() (and the namespace/attribute views) "
+             "for every node of the catalogue trees",
+    "harnesses": [H("h_c07_axes", shards={"quick": shard_choose("shape", 8), "thorough": shard_choose("shape", 8)}),
+                  H("h_c07_all", shards={"quick": shard_choose("shape", 8), "thorough": shard_choose("shape", 8)})],
+    "bounds": {"quick": "8 catalogue trees (5-11 nodes incl. attribute/namespace nodes, deep chain, fan), every node as start node",
+               "thorough": "same"},
+    "outside": "tree shapes outside the catalogue (shapes are concrete per path; the symbolic part is contents and the start node)",
+    "assumptions": [],
+}
+
+PROPS["C13"] = {
+    "claim": "deep_equal / deep_equal_xpath / deep_equal_children / advanced_deep_equal / shallow_equal(_ignore_attributes) / "
+             "string_value agree with a canonical-form oracle computed from the read-back, for all contents",
+    "harnesses": [H("h_c13_deep_equal", shards={"quick": shard_product(("shape", 4), ("va", 2)), "thorough": shard_product(("shape", 4), ("va", 2))}),
+                  H("h_c13_shallow", shards={"quick": shard_choose("vb", 7), "thorough": shard_choose("vb", 7)})],
+    "bounds": {"quick": "pairs (base subtree of 4 shapes x 2, one-feature variant out of 13) with every attribute value / text / "
+                        "comment / PI content symbolic (1 char each); 6 ignore lists incl. repeated and absent names",
+               "thorough": "same"},
+    "outside": "subtrees larger than 5 nodes; contents longer than one character; triples (transitivity follows from the "
+               "canonical-form equivalence that is asserted pairwise)",
+    "assumptions": [],
+}
+
 PROPS["DBG"] = {
     "claim": "debug probes", "harnesses": [H("h_probe_tree"), H("h_probe_tostring"), H("h_probe_parse")],
     "bounds": {"quick": "-", "thorough": "-"}, "outside": "", "assumptions": [],
